@@ -121,7 +121,7 @@ class VttCue:
     if self._end is None:
       raise ValueError("VTT paragraph end time code must be set.")
 
-    if self._end.to_seconds() <= self._begin.to_seconds():
+    if self._end.to_milliseconds() <= self._begin.to_milliseconds():
       raise ValueError("VTT paragraph end time code must be greater than the begin time code.")
 
     return str(self)
